@@ -89,6 +89,9 @@ type Server struct {
 	TLSConfig    *tls.Config // for STARTTLS / implicit TLS
 	ImplicitTLS  bool
 	NoHELO       bool // reject HELO/EHLO is done through the script; NoHELO unused
+	// StepAuth (default false = the behaviour described above): every client line of an AUTH exchange (the AUTH
+	// command and each continuation line) consumes one decision of the script, see server_stepauth.go
+	StepAuth bool
 
 	mu      sync.Mutex
 	Trace   []Event
@@ -452,6 +455,16 @@ func (s *Server) Serve(conn net.Conn) {
 				steps = 1
 			} else if mech == "CRAM-MD5" {
 				steps = 1
+			}
+			if s.StepAuth {
+				// add-only extension (server_stepauth.go): one decision per client line of the AUTH exchange
+				if !s.stepAuth(conn, br, &e, d, steps, mech, len(f) > 2, func(ev *Event, dd Decision) bool { return send(ev, "AUTH", dd) }) {
+					return
+				}
+				if e.Code == 235 {
+					sess.authed = true
+				}
+				continue
 			}
 			if (d.Kind == "" || d.Kind == "ok" || (d.Kind == "reply" && okClass(d.Code))) && steps > 0 {
 				prompts := []string{"VXNlcm5hbWU6", "UGFzc3dvcmQ6"}
